@@ -7,6 +7,8 @@ import (
 )
 
 const (
+	// nGRUActivations is the number of activation functions the operator uses.
+	nGRUActivations = 2
 	MinGRUInputs = 3
 	MaxGRUInputs = 6
 )
@@ -114,6 +116,10 @@ func (g *GRU) Apply(inputs []tensor.Tensor) ([]tensor.Tensor, error) {
 	err = prevH.Reshape(shapeWithoutBidir...)
 	if err != nil {
 		return nil, err
+	}
+
+	if len(g.activations) < nGRUActivations {
+		return nil, ops.ErrInvalidAttribute(ops.ActivationsAttr, g)
 	}
 
 	fActivation, err := ops.GetActivation(g.activations[0])
